@@ -9,10 +9,17 @@ FUNC_NOTE = ("Trusted base: num-bigint as oracle (cross-checked by identities re
              "structured/hostile, not exhaustive, except for the sub-spaces the evidence lists as exhaustive.")
 
 # id -> (technique, level text, design_ref, level_note)
+T_REF = "reference-model runtime monitor: real API calls on hostile generated workloads, each result compared online with an independent BigUint/BigInt oracle and crate-recomputed identities; oracle-side classification counts rare paths"
+def func(text, ref, tech=T_REF):
+    return (tech, "Exploration: " + text, ref, FUNC_NOTE)
+
 CLAIMED = {
- "C02": ("reference-model runtime monitor (BigUint oracle + n==q*d+r identity) over hostile generated workloads with oracle-side rare-path classification",
-         "Exploration: every division/remainder form (fixed 1..64 limbs, boxed 1..70 limbs, mixed widths, by-limb, wide, rem2k, operators, Wrapping, traits) is executed on millions of constructed operand pairs per run and each result is compared online with an independent big-integer oracle; the oracle classifies and counts the rare paths (Knuth add-back, capped estimate, 2-by-1 corrections) so a run that missed them is reported inconclusive.",
-         "DESIGN.md §4 C02", FUNC_NOTE),
+ "C02": func("every division/remainder form (fixed 1..64 limbs, boxed 1..70 limbs, mixed widths, by-limb, wide, rem2k, operators, Wrapping, traits) is executed on millions of constructed operand pairs per run (n=q*d+r, Knuth add-back constructions, reciprocal corners) and compared with the oracle; rare paths (add-back, capped estimate, 2-by-1 corrections) are counted so a run that missed them is reported inconclusive.", "DESIGN.md §4 C02"),
+ "C03": func("every multiplication/squaring form (Limb, Uint 1..12,16,32,64,128 limbs equal and mixed, BoxedUint 1..140 limbs equal/unequal, operators, Wrapping, Checked, widening) is compared with the exact oracle product; Karatsuba-targeted generation forces all nine sign combinations of the half differences at each dispatch width, plus carry-chain and 2^BITS-boundary products.", "DESIGN.md §4 C03"),
+ "C04": func("adc/sbb/mac primitives (palette-exhaustive incl. carry-in 2 and MAX), wrapping/checked/saturating/operator/assigning forms, Wrapping and Checked wrappers (sticky none in every operator form), boxed with boxed of other precision / Uint<N> / u8..u128; carry, borrow, none and panic are required exactly when the true result leaves [0,2^BITS).", "DESIGN.md §4 C04"),
+ "C05": func("exhaustive grid over every shift amount 0..=2*BITS+1 (+2^31, u32::MAX) and every bit index 0..=BITS+1 for Limb, Uint/Int of 1,2,3,4,5,6,8,16 limbs and BoxedUint 1..=20 limbs, all shift forms (ct, vartime, overflowing, wrapping, wide, operators i32/u32/usize, traits, in-place) and bit queries / bitwise operators against the binary expansion.", "DESIGN.md §4 C05"),
+ "C06": func("every comparison predicate (ct and vartime, Eq/Ord/PartialOrd, zero/one/odd/even/min/max/sign tests) on Limb, Uint, Int, BoxedUint of equal and different precision and NonZero/Odd/Wrapping wrappers is checked against the mathematical order on relation-derived pairs; equal values must hash equally (two hashers); select/assign/swap/negate checked bitwise for both choices; option types report is_some as documented.", "DESIGN.md §4 C06"),
+ "C07": func("add/sub/neg/double/mul (ct, vartime, special-modulus) and halving on Uint 1..16 limbs and BoxedUint 1..20 limbs for structured moduli (1, 2, 3, 2^BITS-1, 2^(BITS-1)+-1, zero high limbs, 2^BITS-c with c from 1 to MAX) and relation-derived operands; result must be the canonical residue.", "DESIGN.md §4 C07"),
 }
 
 checks = []
